@@ -220,6 +220,43 @@ def _r_astype_cols(f, a):
     return f.astype[a['c']](str if a['dt'] == 'str' else a['dt'])
 
 
+def _d_astype_cols_present_dtype(spec, rng):
+    """target dtype = the dtype some of the selected columns already have (those blocks may be passed through untouched), selection of
+    non-adjacent columns: what a block that needs no conversion does to the pending targets must not depend on where the blocks end"""
+    if spec.col_kind.startswith('hier') or len(spec.cols) < 3:
+        return None
+    counts = {}
+    for dt in spec.dtypes:
+        counts[dt] = counts.get(dt, 0) + 1
+    cands = [dt for dt, c in counts.items() if c >= 2 and dt in ('float64', 'int64', 'bool', 'object', 'float32', 'int8', 'uint8', 'complex128')]
+    if not cands:
+        return None
+    dt = rng.choice(cands)
+    same = [i for i, d in enumerate(spec.dtypes) if d == dt]
+    others = [i for i, d in enumerate(spec.dtypes) if d != dt]
+    picked = set(rng.sample(same, rng.randint(2, len(same))))
+    if len(same) >= 3 and rng.random() < 0.6:
+        picked.discard(same[1])  # leave a gap inside the run of equal dtypes
+    picked.update(rng.sample(others, rng.randint(0, len(others))))
+    return {'c': [c for i, c in enumerate(spec.cols) if i in picked], 'dt': dt}
+
+
+def _d_fillna_frame(spec, rng):
+    """fill from a Frame with the same labels: cell (r, c) is filled from the fill frame's cell (r, c), whatever blocks the target has"""
+    nr, nc = spec.shape
+    if not nr or not nc or spec.row_kind.startswith('hier') or spec.col_kind.startswith('hier'):
+        return None
+    return {'cells': [[rng.choice([7, 8.5, 'z', True]) for _ in range(nc)] for _ in range(nr)], 'same_kind': rng.random() < 0.5,
+            'numbers': [[float(10 * i + j) for j in range(nc)] for i in range(nr)]}
+
+
+def _r_fillna_frame(f, a):
+    import static_frame as sf
+    cells = a['numbers'] if a['same_kind'] else a['cells']
+    fill = sf.Frame.from_records(cells, index=f.index, columns=f.columns)
+    return f.fillna(fill)
+
+
 def _d_binop_scalar(spec, rng):
     return {'op': rng.choice(['add', 'sub', 'mul', 'truediv', 'floordiv', 'eq', 'ne', 'lt', 'ge', 'and_', 'or_', 'radd', 'rsub', 'pow']),
             'v': rng.choice([1, 2, 0, -1, 1.5, True, 'a', None])}
@@ -446,6 +483,8 @@ CATALOGUE = {
     'transpose': (_d_none, lambda f, a: f.transpose()),
     'astype_all': (_d_astype_all, _r_astype_all),
     'astype_cols': (_d_astype_cols, _r_astype_cols),
+    'astype_cols_present_dtype': (_d_astype_cols_present_dtype, _r_astype_cols),
+    'fillna_frame': (_d_fillna_frame, _r_fillna_frame),
     'binop_scalar': (_d_binop_scalar, _r_binop_scalar),
     'binop_array': (_d_binop_array, _r_binop_array),
     'unary': (_d_unary, _r_unary),
@@ -462,6 +501,8 @@ CATALOGUE = {
     'fillna': (_d_fillna, lambda f, a: f.fillna(a['v'])),
     'fillna_forward': (_d_fill_dir, lambda f, a: f.fillna_forward(a['limit'], axis=a['axis'])),
     'fillna_backward': (_d_fill_dir, lambda f, a: f.fillna_backward(a['limit'], axis=a['axis'])),
+    'fillna_forward_limited': (lambda spec, rng: {'limit': rng.choice([1, 1, 2])}, lambda f, a: f.fillna_forward(a['limit'], axis=1)),
+    'fillna_backward_limited': (lambda spec, rng: {'limit': rng.choice([1, 1, 2])}, lambda f, a: f.fillna_backward(a['limit'], axis=1)),
     'fillna_leading': (_d_fillna, lambda f, a: f.fillna_leading(a['v'], axis=0)),
     'fillna_trailing_axis1': (_d_fillna, lambda f, a: f.fillna_trailing(a['v'], axis=1)),
     'fillna_leading_axis1': (_d_fillna, lambda f, a: f.fillna_leading(a['v'], axis=1)),
@@ -532,7 +573,7 @@ def probes(ctx):
 
 
 _MISSING_OPS = ['fillna', 'fillna_forward', 'fillna_backward', 'fillna_leading', 'fillna_trailing', 'fillna_leading_axis1',
-                'fillna_trailing_axis1', 'dropna', 'isna', 'notna']
+                'fillna_trailing_axis1', 'dropna', 'isna', 'notna', 'fillna_frame', 'fillna_forward_limited', 'fillna_backward_limited']
 _MISSING_DTYPES = ['float64', 'float64', 'float32', 'object', 'M8[D]', 'complex128', 'int64']
 
 
